@@ -1124,6 +1124,16 @@ func (fe *FnEnc) trCall(x ECall, env *Env) SVal {
 		}
 		h := fe.getComp(env.state(), respStatus, arrSort(sInt, sInt))
 		return SVal{T: tSel(h, k), Typ: types.Typ[types.Int]}
+	case "served", "servedOf": // served(w): the response was produced by http.ServeContent; servedOf(w): from the reader handed out for this digest
+		w := fe.mat(fe.tr(x.Args[0], env), env)
+		k := w.T
+		if k.Sort == sIface {
+			k = ifVal(k)
+		}
+		if x.Fn == "served" {
+			return SVal{T: tSel(fe.getComp(env.state(), respServed, arrSort(sInt, sBool)), k), Typ: types.Typ[types.Bool]}
+		}
+		return SVal{T: tSel(fe.getComp(env.state(), respServedOf, arrSort(sInt, sStr)), k), Typ: types.Typ[types.String]}
 	case "same": // same(Type.field) / same(ghost name): a whole ghost component is unchanged since the old state
 		name := exprName(x.Args[0])
 		var cn, cs string
